@@ -173,8 +173,8 @@ structure KDisc (fuel : Nat) : Prop where
     Scopes.KeysOK σ'.ctx.scopes
   block : ∀ ss (σ σ' : Sys W), σ.ctx.vars.Inv → Scopes.KeysOK σ.ctx.scopes → execBlock D fuel ss σ = some σ' →
     Scopes.KeysOK σ'.ctx.scopes
-  loop : ∀ var n body (σ σ' : Sys W), σ.ctx.vars.Inv → Scopes.KeysOK σ.ctx.scopes →
-    loopIter D fuel var n body σ = some σ' → Scopes.KeysOK σ'.ctx.scopes
+  loop : ∀ var n body cur (σ σ' : Sys W), σ.ctx.vars.Inv → Scopes.KeysOK σ.ctx.scopes →
+    loopIter D fuel var n body cur σ = some σ' → Scopes.KeysOK σ'.ctx.scopes
   whil : ∀ cond body (σ σ' : Sys W), σ.ctx.vars.Inv → Scopes.KeysOK σ.ctx.scopes →
     whileIter D fuel cond body σ = some σ' → Scopes.KeysOK σ'.ctx.scopes
 
@@ -213,7 +213,7 @@ theorem kdisc (hD : D.KeepsVars) : ∀ fuel, KDisc D fuel := by
           have hk' := keysOK_of_vars_eq hv hk
           split at h
           · cases h; exact hk'
-          · exact ih.loop var n body _ σ' (scopes_set c'.pushFrame var 0 (FMap.inv_push c'.vars hinv')).1
+          · exact ih.loop var n body 0 _ σ' (scopes_set c'.pushFrame var 0 (FMap.inv_push c'.vars hinv')).1
               (keysOK_ctx_set _ _ _ (FMap.inv_push c'.vars hinv') (keysOK_ctx_push c' hk')) h
         · cases h
       | «while» cond body =>
@@ -228,7 +228,7 @@ theorem kdisc (hD : D.KeepsVars) : ∀ fuel, KDisc D fuel := by
         · cases h
         · next σ1 hs =>
           exact ih.block ss' σ1 σ' (hdis.stmt s σ σ1 hinv hs).1 (ih.stmt s σ σ1 hinv hk hs) h
-    · intro var n body σ σ' hinv hk h
+    · intro var n body cur σ σ' hinv hk h
       simp only [loopIter] at h
       split at h
       · cases h
@@ -236,12 +236,9 @@ theorem kdisc (hD : D.KeepsVars) : ∀ fuel, KDisc D fuel := by
         have i2 := (hdis.block body σ σ2 hinv hb).1
         have k2 := ih.block body σ σ2 hinv hk hb
         split at h
-        · next prev hg =>
-          split at h
-          · exact ih.loop var n body _ σ' (scopes_set σ2.ctx var (satSucc prev) i2).1
-              (keysOK_ctx_set _ _ _ i2 k2) h
-          · cases h; exact keysOK_ctx_pop σ2.ctx k2
-        · cases h
+        · exact ih.loop var n body _ _ σ' (scopes_set σ2.ctx var (satSucc cur) i2).1
+            (keysOK_ctx_set _ _ _ i2 k2) h
+        · cases h; exact keysOK_ctx_pop σ2.ctx k2
     · intro cond body σ σ' hinv hk h
       simp only [whileIter] at h
       split at h
@@ -378,7 +375,7 @@ theorem lkeep (hD : D.KeepsVars) (var : String) : ∀ fuel, LKeep D var fuel := 
               | cons b bs => exact ⟨b, bs, rfl⟩
             have htail : (c'.pushFrame.set lv 0).scopes.tail = b :: bs := by
               rw [s2, hps]; simp [Scopes.set, hb]
-            obtain ⟨_, s3⟩ := hdis.loop lv n body _ σ' b bs i2 htail h
+            obtain ⟨_, s3⟩ := hdis.loop lv n body 0 _ σ' b bs i2 htail h
             unfold Ctx.lk
             rw [s3, ← hb]
             unfold Ctx.scopes; rw [hv]
